@@ -5,7 +5,7 @@ from checks import c06
 
 MEMBERS = ["kty", "alg", "use", "key_ops", "kid", "n", "e", "d", "p", "q", "dp", "dq", "qi", "crv", "x", "y", "k"]
 ABSENT = object()
-SUBST = [ABSENT, None, True, 0, -1, 1.5, "", "!", "A", "AA=A", "AAAA", "Q" * 10240, [], [1], {}, {"a": 1}]
+SUBST = [ABSENT, None, True, 0, -1, 1.5, "", "!", "A", "AA=A", "AAAA", "Q" * 10240, [], [1], {}, {"a": 1}, "%s%s%s%s%n", "%999999d%n"]
 KTY = {"EC": 1, "RSA": 2, "OKP": 3, "oct": 4}
 
 
